@@ -915,12 +915,12 @@ mutual
     | .obj m, w => match w with
       | .obj n => approxM k m n
       | _ => false
-    | .null, w => w == .null
-    | .bool b, w => w == .bool b
-    | .int i, w => w == .int i
-    | .bytes b, w => w == .bytes b
-    | .ts t, w => w == .ts t
-    | .regex r, w => w == .regex r
+    | .null, w => decide (w = .null)
+    | .bool b, w => decide (w = .bool b)
+    | .int i, w => decide (w = .int i)
+    | .bytes b, w => decide (w = .bytes b)
+    | .ts t, w => decide (w = .ts t)
+    | .regex r, w => decide (w = .regex r)
   def approxL (k : Nat) : VList → VList → Bool
     | .nil, ys => match ys with
       | .nil => true
@@ -933,7 +933,7 @@ mutual
       | .nil => true
       | _ => false
     | .cons key x m, n => match n with
-      | .cons key' y n' => key == key' && approx k x y && approxM k m n'
+      | .cons key' y n' => decide (key = key') && approx k x y && approxM k m n'
       | _ => false
 end
 
